@@ -68,6 +68,39 @@ def _val(v):
     return str(v)
 
 
+def _cvc5(smt2, timeout_ms):
+    """second solver on the same SMT-LIB text; z3's internal `seq.nth_u` (the unspecified value of an out-of-range nth) is spelled seq.nth"""
+    txt = "(set-logic ALL)\n" + smt2.replace("seq.nth_u", "seq.nth")
+    try:
+        cp = subprocess.run(["/usr/bin/cvc5", "--lang=smt2", f"--tlimit={int(timeout_ms)}", "--strings-exp", "--nl-ext-tplanes", "--produce-models", "-"],
+                            input=txt, capture_output=True, text=True, timeout=timeout_ms / 1000 + 5)
+        out = cp.stdout.strip().splitlines()
+        return out[0].strip() if out else "unknown"
+    except Exception:  # noqa
+        return "unknown"
+
+
+def _cross(job):
+    smt2, timeout_ms = job
+    t = time.time()
+    return _cvc5(smt2, timeout_ms), time.time() - t
+
+
+def cross_check(obls, timeout_s=10):
+    """thorough tier: every obligation proved by z3 is decided again by cvc5; returns {agree, inconclusive, disagree: [names]}"""
+    todo = [o for o in obls if o.verdict == "proved" and o.backend == "z3" and o.smt2 and o.expect == "unsat"]
+    res = list(pool().map(_cross, [(o.smt2, timeout_s * 1000) for o in todo], chunksize=2)) if todo else []
+    out = {"checked": len(todo), "agree": 0, "inconclusive": 0, "disagree": [], "seconds": round(sum(dt for _, dt in res), 1)}
+    for o, (ans, dt) in zip(todo, res):
+        if ans == "unsat":
+            out["agree"] += 1; o.second = "cvc5: unsat"
+        elif ans == "sat":
+            out["disagree"].append(o.name); o.second = "cvc5: SAT"
+        else:
+            out["inconclusive"] += 1; o.second = "cvc5: " + ans[:40]
+    return out
+
+
 def _work(job):
     """worker: (smt2 text, timeout ms, show exprs, want sat?) -> (result, seconds, model dict, backend, raw)"""
     smt2, timeout_ms, show = job
@@ -93,14 +126,7 @@ def _work(job):
     reason = so.reason_unknown()
     # second solver: cvc5 binary on the same SMT-LIB text
     t2 = time.time()
-    try:
-        txt = "(set-logic ALL)\n" + smt2
-        cp = subprocess.run(["/usr/bin/cvc5", "--lang=smt2", f"--tlimit={int(timeout_ms)}", "--nl-ext-tplanes", "--produce-models", "-"],
-                            input=txt, capture_output=True, text=True, timeout=timeout_ms / 1000 + 5)
-        out = cp.stdout.strip().splitlines()
-        ans = out[0].strip() if out else "unknown"
-    except Exception as ex:  # noqa
-        ans = "unknown"
+    ans = _cvc5(smt2, timeout_ms)
     dt2 = time.time() - t2
     if ans == "unsat":
         return ("unsat", dt + dt2, None, "cvc5", f"z3: unknown ({reason}); cvc5: unsat")
